@@ -211,6 +211,18 @@ def wl_history(ctx, rng, i):
     except Exception as e:
         ctx.skip("base refused (%s)" % type(e).__name__)
         return
+    if i % 3 == 0:
+        # history: a 2.1 observable with a deterministic id (and the versioning properties as custom content) was versioned
+        # earlier in this process; nothing of its locked-property list may stick to later subjects
+        try:
+            with warnings.catch_warnings():
+                warnings.simplefilter("ignore")
+                sco = json.loads(stix2.parse({"type": "file", "spec_version": "2.1", "name": "prelude-%d.exe" % i, "hashes": {"MD5": "d41d8cd98f00b204e9800998ecf8427e"}}).serialize())
+                sco.update({"created": "2020-01-01T00:00:00.000Z", "modified": "2020-01-01T00:00:00.000Z", "revoked": False})
+                stix2.versioning.new_version(sco, size=7)
+            ctx.count("sco_preludes")
+        except Exception:
+            ctx.count("sco_prelude_failed")
     chain = [to_json(cur)]
     nsteps = 8 if ctx.tier == "quick" else 12
     rels = list(DELTAS)
@@ -257,7 +269,19 @@ def wl_history(ctx, rng, i):
                     label = "new_version(modified=%s)" % kind
                     opname = "new_version(modified)"
                     expect_refusal = kind in ("earlier", "equal", "sub-precision-later")
-                    supplied = sup if rng.random() < 0.5 else (clk.__class__ and __import__("stix2").utils.parse_into_datetime(sup))
+                    shape = rng.choice(["text", "stixdatetime-any", "stixdatetime-from-2.1-object", "datetime-with-offset"])
+                    if shape == "text":
+                        supplied = sup
+                    elif shape == "stixdatetime-any":
+                        supplied = stix2.utils.parse_into_datetime(sup)
+                    elif shape == "stixdatetime-from-2.1-object":
+                        # the library's own timestamp object, as found on a 2.1 object (millisecond / at-least metadata, all digits kept)
+                        supplied = stix2.utils.parse_into_datetime(sup, precision="millisecond", precision_constraint="min")
+                    else:
+                        import datetime as _dt
+                        supplied = (_dt.datetime(1, 1, 1, tzinfo=_dt.timezone.utc) + _dt.timedelta(microseconds=sup_us)).astimezone(
+                            _dt.timezone(_dt.timedelta(minutes=rng.choice([-330, 60, 345, 0]))))
+                    ctx.see("explicit modified shapes", shape)
                     try:
                         new = stix2.versioning.new_version(prev, modified=supplied) if form == "dict" else prev.new_version(modified=supplied)
                     except family():
@@ -389,8 +413,8 @@ def wl_sco_locked(ctx, rng, i):
 
 
 WORKLOADS = [
-    Workload("history", wl_history, quick=lambda: len(SUBJECTS) * 30, thorough=lambda: len(SUBJECTS) * 400),
-    Workload("sco-locked", wl_sco_locked, quick=24, thorough=120),
+    Workload("history", wl_history, quick=lambda: len(SUBJECTS) * 30, thorough=lambda: len(SUBJECTS) * 6000),
+    Workload("sco-locked", wl_sco_locked, quick=24, thorough=1200),
 ]
 
 
